@@ -4,7 +4,8 @@
    the implementation's observations.) *)
 From Coq Require Import List ZArith.
 From PM Require Import Model.Data Model.Tree Model.StepMap Model.Step Model.Transform Spec.Tokens Proofs.TransformProofs
-  Proofs.ReplaceValid Proofs.SliceSides Proofs.SliceShape Proofs.TokenLaws Proofs.StepTokens.
+  Proofs.ReplaceValid Proofs.SliceSides Proofs.SliceShape Proofs.TokenLaws Proofs.StepTokens
+  Proofs.TokenInj Proofs.ReplaceCanon Proofs.DocEquality.
 Import ListNotations.
 Local Open Scope nat_scope.
 
@@ -52,3 +53,16 @@ Theorem C04_replace_inverse_map : forall s from to sl structure doc inv,
               map_result (StepMap.invert (get_map s (SReplace from to sl structure))) p a.
 Proof. exact replace_step_inverse_map. Qed.
 Print Assumptions C04_replace_inverse_map.
+
+(* ... and as documents: for a document and a slice in normal form ([NormalDoc], [canon_list]: no empty text,
+   no adjacent text nodes with == marks — what the library's constructors and Node.replace produce), the
+   document that comes back is EQUAL (Node.eq) to the starting one *)
+Theorem C04_replace_step_undo_gives_equal_document : forall s from to sl structure doc d' inv d'',
+  check s doc = true -> NormalDoc s doc ->
+  OpenOK s (sl_content sl) (sl_open_start sl) (sl_open_end sl) -> canon_list s (sl_content sl) = true -> from <= to ->
+  apply s (SReplace from to sl structure) doc = ROk d' ->
+  invert_step s (SReplace from to sl structure) doc = Ok inv ->
+  apply s inv d' = ROk d'' ->
+  node_eqb d'' doc = true.
+Proof. exact replace_step_undo_eq. Qed.
+Print Assumptions C04_replace_step_undo_gives_equal_document.
